@@ -193,6 +193,10 @@ def run_pinv(ctx, case, A, M, eps, preds, rng):
         ctx.check("pinv-returns", False, site="pinv", preds=preds, detail={"error": repr(x)})
         return
     ctx.check("pinv-returns", True)
+    from harness.reuse import reuse_checks
+    b_other = (rng.standard_normal(b.shape) + (1j * rng.standard_normal(b.shape) if np.iscomplexobj(b) else 0)).astype(b.dtype)
+    reuse_checks(ctx, (lambda: pinv(A)) if alg is None else (lambda: pinv(A, alg)), b, b_other, "pinv", dict(preds),
+                 rel_tol=1e-3 if case["alg"] == "CG" else 1e-8)
     x = np.asarray(x)
     want, *_ = np.linalg.lstsq(M.astype(np.result_type(M.dtype, b.dtype)), b.astype(np.result_type(M.dtype, b.dtype)), rcond=None)
     if x.shape != want.shape or not np.all(np.isfinite(x)):
